@@ -161,6 +161,14 @@ impl Worker {
     }
   }
 
+  pub fn restore(&mut self) {
+    self.restore_prefix()
+  }
+
+  pub fn fresh_dir(&mut self, cfg: &IndexCfg) -> anyhow::Result<PathBuf> {
+    self.fresh_index_dir(cfg)
+  }
+
   fn restore_prefix(&mut self) {
     self.world.reset();
     for b in self.prefix_blocks.iter().skip(1) {
